@@ -6,3 +6,20 @@ claim("C01", "exploration", "bounded exhaustive input enumeration on the real co
       "pairing on up to 10 (quick) / 12 (thorough) positions, every chord diagram of up to 4/6 stems with stem lengths and gaps, ladders up to "
       "30 levels, and every balanced string up to length 8/10; holds for all members of these families, nothing claimed beyond the bounds.",
       "Trusts CPython and the harness's own decoder (ref2d.decode); CBC is the MILP back-end.", "DESIGN.md 3/C01")
+
+claim("C02", "exploration", "bounded exhaustive input enumeration on the real code against an exact branch-and-bound optimiser (small-scope model checking)",
+      "For every pairing on up to 10/12 positions, every chord diagram of up to 4/6 stems with stem lengths up to 3 and ladders up to 8/12 "
+      "mutually crossing stems, the decoded optimal notation is proper, its objective equals the exact optimum over all proper level "
+      "assignments, and the three corollaries hold.",
+      "Only the objective value is compared. Trusts CBC to solve the MILP it is given and the harness's branch-and-bound.", "DESIGN.md 3/C02")
+
+claim("C16", "exploration", "bounded exhaustive input enumeration on the real code against an independent backtracking enumeration of greedy-stable colourings",
+      "For every pairing on up to 10/11 positions, every chord diagram of up to 4/6 stems and explicit 7/8-stem conflict graphs, the decoded "
+      "members of all_dot_brackets equal, as a set, the greedy-stable proper colourings (product over components), without repetition, "
+      "containing the optimal and FCFS notation.",
+      "Groups of crossing stems have at most 8 members. Trusts the harness's colouring enumerator.", "DESIGN.md 3/C16")
+
+claim("C07", "exploration", "bounded exhaustive input enumeration on the real code against an independent element decomposition (small-scope model checking)",
+      "For every pairing on up to 10/12 positions, chord diagrams of up to 4/5 stems and ladders, stems/hairpins/loops/strand coverage/slices "
+      "of BpSeq.elements satisfy the property's definitions, and motif_extractor prints the same elements.",
+      "Strand structure slices are compared with the object's own dot_bracket.", "DESIGN.md 3/C07")
